@@ -25,3 +25,8 @@ def jobs(tier):
 ASSUMPTIONS = ['S1 numpy shim', 'S2 exact arithmetic', 'OPT from the expansion oracle over all assignments']
 OUTSIDE = ['more than 7 (quick) / 8 (thorough) items: the ratio bounds only become tight for dozens of items; at these sizes they are implied by the invariant',
            'planted large instances']
+
+
+def post(tier, rc):
+    from .core import crosshair_post
+    return crosshair_post('C09', ['first_fit_any_fit_invariant', 'best_fit_feasible'], tier, rc)
